@@ -3,7 +3,7 @@
    generic wire entry point [run_case]. *)
 From Coq Require Import ZArith List Bool.
 Import ListNotations.
-From GV Require Import Common.Wire Common.PyInt gen.Gen_array.
+From GV Require Import Common.Wire Common.PyInt gen.Gen_array gen.Gen_arraypure.
 Open Scope Z_scope.
 
 (* ---------- proof-friendly reference versions of the translated functions ---------- *)
@@ -91,6 +91,236 @@ Fixpoint index_of (x : Z) (l : list Z) : Z :=
   end.
 Definition codes (vals : list Z) : list Z := map (fun v => index_of v (categories vals)) vals.
 
+(* ---------- view_shape as numpy READS the view: scalar items of every kind ----------
+   A Python int and a Python / numpy bool are different index items for numpy although 1 == True and
+   hash(1) == hash(True) in Python: an int selects along an axis and drops it, a scalar boolean consumes NO axis
+   and adds one of length 1 (True) or 0 (False); together with ints it makes the index an "advanced" one. *)
+Inductive vitem := VIInt (i : Z) | VIBool (b : bool) | VINone | VIEllipsis | VISlice (s : slice).
+
+Definition vi_consumes (v : vitem) : Z := match v with VIInt _ | VISlice _ => 1 | _ => 0 end.
+Definition vi_is_adv (v : vitem) : bool := match v with VIInt _ | VIBool _ => true | _ => false end.
+Definition vi_is_bool (v : vitem) : bool := match v with VIBool _ => true | _ => false end.
+Definition vi_is_ell (v : vitem) : bool := match v with VIEllipsis => true | _ => false end.
+Definition vi_bool_true (v : vitem) : bool := match v with VIBool b => b | _ => true end.
+
+(* dimensions contributed by the non-advanced items, in order; nell = number of axes the Ellipsis stands for;
+   the axes left over at the end of the view are kept (implicit trailing Ellipsis).  None = IndexError *)
+Fixpoint vi_dims (shape : list Z) (view : list vitem) (nell : nat) : option (list Z) :=
+  match view with
+  | [] => Some shape
+  | VIInt i :: r =>
+    match shape with
+    | [] => None
+    | n :: s' => if (i <? - n) || (i >=? n) then None else vi_dims s' r nell
+    end
+  | VISlice sl :: r =>
+    match shape with
+    | [] => None
+    | n :: s' =>
+      match slice_indices sl n, vi_dims s' r nell with
+      | Some (b, e, k), Some d => Some ((if k >? 0 then range_len b e k else range_len e b (- k)) :: d)
+      | _, _ => None
+      end
+    end
+  | VINone :: r => option_map (cons 1) (vi_dims shape r nell)
+  | VIBool _ :: r => vi_dims shape r nell
+  | VIEllipsis :: r => option_map (app (firstn nell shape)) (vi_dims (skipn nell shape) r nell)
+  end.
+
+(* are the advanced items (ints and booleans) next to each other?  st: 0 = none seen yet, 1 = inside the run,
+   2 = the run is over (a slice / None / Ellipsis came after it) *)
+Fixpoint adv_consec (st : nat) (view : list vitem) : bool :=
+  match view with
+  | [] => true
+  | v :: r =>
+    if vi_is_adv v then (match st with 2%nat => false | _ => adv_consec 1 r end)
+    else adv_consec (match st with 1%nat => 2%nat | s => s end) r
+  end.
+
+(* number of result dimensions produced before the first advanced item *)
+Fixpoint dims_before_adv (view : list vitem) (nell : nat) : nat :=
+  match view with
+  | [] => 0
+  | v :: r =>
+    if vi_is_adv v then 0%nat
+    else ((match v with VIEllipsis => nell | _ => 1%nat end) + dims_before_adv r nell)%nat
+  end.
+
+Definition np_index_shape (shape : list Z) (view : list vitem) : option (list Z) :=
+  let consumed := fold_right Z.add 0 (map vi_consumes view) in
+  let nells := length (filter vi_is_ell view) in
+  if (1 <? nells)%nat then None
+  else if zlen shape <? consumed then None
+  else
+    let nell := Z.to_nat (zlen shape - consumed) in
+    match vi_dims shape view nell with
+    | None => None
+    | Some d =>
+      if existsb vi_is_bool view then
+        let adv := if forallb vi_bool_true view then 1 else 0 in
+        let pos := if adv_consec 0 view then dims_before_adv view nell else 0%nat in
+        Some (firstn pos d ++ adv :: skipn pos d)
+      else Some d
+    end.
+
+(* the translated two lines of view_shape (coq/gen/Gen_arraypure.v) around the numpy operation *)
+Definition view_shape_full (shape : list Z) (view : option (list vitem)) : option (list Z) :=
+  view_shape_gen np_index_shape shape view.
+
+(* ---------- call histories of a memoised view_shape: the class of "hidden state across calls" ----------
+   a table of earlier calls, looked up with a key equality keq on views *)
+Definition zlist_eqb (a b : list Z) : bool := (length a =? length b)%nat && forallb (fun '(x, y) => x =? y) (combine a b).
+Definition memo := list (list Z * list vitem * option (list Z)).
+Fixpoint memo_lookup (keq : list vitem -> list vitem -> bool) (sh : list Z) (v : list vitem) (m : memo)
+  : option (option (list Z)) :=
+  match m with
+  | [] => None
+  | (sh', v', r) :: m' => if zlist_eqb sh sh' && keq v v' then Some r else memo_lookup keq sh v m'
+  end.
+Fixpoint run_cached (keq : list vitem -> list vitem -> bool) (m : memo) (calls : list (list Z * list vitem))
+  : list (option (list Z)) :=
+  match calls with
+  | [] => []
+  | (sh, v) :: rest =>
+    match memo_lookup keq sh v m with
+    | Some r => r :: run_cached keq m rest
+    | None => let r := np_index_shape sh v in r :: run_cached keq ((sh, v, r) :: m) rest
+    end
+  end.
+
+(* Python's == on index items: 1 == True, 0 == False *)
+Definition optz_eqb (a b : option Z) : bool :=
+  match a, b with Some x, Some y => x =? y | None, None => true | _, _ => false end.
+Definition slice_eqb (s t : slice) : bool :=
+  optz_eqb (sl_start s) (sl_start t) && optz_eqb (sl_stop s) (sl_stop t) && optz_eqb (sl_step s) (sl_step t).
+Definition py_eq_item (a b : vitem) : bool :=
+  match a, b with
+  | VIInt i, VIInt j => i =? j
+  | VIBool x, VIBool y => Bool.eqb x y
+  | VIInt i, VIBool y | VIBool y, VIInt i => i =? (if y then 1 else 0)
+  | VINone, VINone | VIEllipsis, VIEllipsis => true
+  | VISlice s, VISlice t => slice_eqb s t
+  | _, _ => false
+  end.
+(* numpy's reading: the kind of the item matters *)
+Definition np_eq_item (a b : vitem) : bool :=
+  match a, b with
+  | VIInt i, VIInt j => i =? j
+  | VIBool x, VIBool y => Bool.eqb x y
+  | VINone, VINone | VIEllipsis, VIEllipsis => true
+  | VISlice s, VISlice t => slice_eqb s t
+  | _, _ => false
+  end.
+Fixpoint forall2b {A} (f : A -> A -> bool) (a b : list A) : bool :=
+  match a, b with
+  | [], [] => true
+  | x :: a', y :: b' => f x y && forall2b f a' b'
+  | _, _ => false
+  end.
+Definition py_eq_view := forall2b py_eq_item.
+Definition np_eq_view := forall2b np_eq_item.
+
+(* ---------- categorical arrays as OBJECTS: data buffers, views, lazily cached categories / codes ----------
+   values are ranks in a total order (Z); a missing code is -1 (NaN in the implementation) *)
+Record cobj := mk_cobj { o_buf : nat; o_sel : list nat; o_cats : option (list Z); o_codes : option (list Z) }.
+Record cheap := mk_cheap { h_bufs : list (list Z); h_objs : list cobj }.
+Definition empty_heap : cheap := mk_cheap [] [].
+
+Definition obj_values (h : cheap) (o : cobj) : list Z :=
+  map (fun i => nth i (nth (o_buf o) (h_bufs h) []) 0) (o_sel o).
+Definition lookup_codes (cats vals : list Z) : list Z := map (fun v => index_of v cats) vals.
+
+(* what a caller sees (pure): .categories and .codes *)
+Definition obs_cats (h : cheap) (o : cobj) : list Z :=
+  match o_cats o with Some c => c | None => categories (obj_values h o) end.
+Definition obs_codes (h : cheap) (o : cobj) : list Z :=
+  match o_codes o with Some c => c | None => lookup_codes (obs_cats h o) (obj_values h o) end.
+
+Definition dummy_obj : cobj := mk_cobj 0 [] None None.
+Definition get_obj (h : cheap) (i : nat) : cobj := nth i (h_objs h) dummy_obj.
+Fixpoint set_nth {A} (i : nat) (x : A) (l : list A) : list A :=
+  match l, i with
+  | [], _ => []
+  | _ :: t, O => x :: t
+  | y :: t, S j => y :: set_nth j x t
+  end.
+Definition set_obj (h : cheap) (i : nat) (o : cobj) : cheap := mk_cheap (h_bufs h) (set_nth i o (h_objs h)).
+
+(* _update_categories_and_codes *)
+Definition update_obj (h : cheap) (o : cobj) : cobj :=
+  match o_cats o with
+  | Some c => mk_cobj (o_buf o) (o_sel o) (Some c) (Some (lookup_codes c (obj_values h o)))
+  | None => mk_cobj (o_buf o) (o_sel o) (Some (categories (obj_values h o))) (Some (codes (obj_values h o)))
+  end.
+(* the .categories getter: computes (and caches) only when there are no categories yet *)
+Definition force_cats (h : cheap) (i : nat) : cheap :=
+  let o := get_obj h i in
+  match o_cats o with Some _ => h | None => set_obj h i (update_obj h o) end.
+(* the .codes getter *)
+Definition force_codes (h : cheap) (i : nat) : cheap :=
+  let o := get_obj h i in
+  match o_codes o with Some _ => h | None => set_obj h i (update_obj h o) end.
+
+Inductive cop :=
+| CNew (vals : list Z) (cats : option (list Z))
+| CRewrap (src : nat) (copy : bool) (cats : option (list Z))      (* categorical_ndarray(src, copy=..., categories=...) *)
+| CView (src : nat) (sel : list nat)                              (* src[index] / src.view(): positions within src *)
+| CCodes (src : nat)
+| CCats (src : nat).
+
+Inductive cres := RObj (i : nat) | RVals (l : list Z) | RBad.
+
+Definition add_obj (h : cheap) (o : cobj) : cheap := mk_cheap (h_bufs h) (h_objs h ++ [o]).
+
+Definition cstep (h : cheap) (op : cop) : cheap * cres :=
+  match op with
+  | CNew vals cats =>
+    let b := length (h_bufs h) in
+    let h1 := mk_cheap (h_bufs h ++ [vals]) (h_objs h) in
+    (add_obj h1 (mk_cobj b (seq 0 (length vals)) cats None), RObj (length (h_objs h)))
+  | CRewrap src copy cats =>
+    if (src <? length (h_objs h))%nat then
+      (* a NEW view object is made of src (its __array_finalize__ reads src.categories), then the requested
+         categories are assigned to the NEW object *)
+      let h1 := force_cats h src in
+      let o := get_obj h1 src in
+      let inherited := obs_cats h1 o in
+      let c := match cats with Some c => c | None => inherited end in
+      if copy then
+        let b := length (h_bufs h1) in
+        let vals := obj_values h1 o in
+        let h2 := mk_cheap (h_bufs h1 ++ [vals]) (h_objs h1) in
+        (add_obj h2 (mk_cobj b (seq 0 (length vals)) (Some c) None), RObj (length (h_objs h)))
+      else
+        (add_obj h1 (mk_cobj (o_buf o) (o_sel o) (Some c) None), RObj (length (h_objs h)))
+    else (h, RBad)
+  | CView src sel =>
+    if (src <? length (h_objs h))%nat then
+      let h1 := force_cats h src in
+      let o := get_obj h1 src in
+      (add_obj h1 (mk_cobj (o_buf o) (map (fun k => nth k (o_sel o) 0%nat) sel) (Some (obs_cats h1 o)) None),
+       RObj (length (h_objs h)))
+    else (h, RBad)
+  | CCodes src =>
+    if (src <? length (h_objs h))%nat then
+      let h1 := force_codes h src in (h1, RVals (obs_codes h1 (get_obj h1 src)))
+    else (h, RBad)
+  | CCats src =>
+    if (src <? length (h_objs h))%nat then
+      let h1 := force_cats h src in (h1, RVals (obs_cats h1 (get_obj h1 src)))
+    else (h, RBad)
+  end.
+
+Fixpoint crun (h : cheap) (ops : list cop) : cheap * list cres :=
+  match ops with
+  | [] => (h, [])
+  | op :: rest => let '(h1, r) := cstep h op in let '(h2, rs) := crun h1 rest in (h2, r :: rs)
+  end.
+
+(* the seeded shortcut, for the refutation only: hand the argument itself back and assign the categories to it *)
+Definition rewrap_alias (h : cheap) (src : nat) (cats : list Z) : cheap :=
+  let o := get_obj h src in set_obj h src (mk_cobj (o_buf o) (o_sel o) (Some cats) (o_codes o)).
+
 (* ---------- wire ---------- *)
 Definition dec_slice (t : tree) : slice :=
   Slice (opt_z (kid 0 t)) (opt_z (kid 1 t)) (opt_z (kid 2 t)).
@@ -103,6 +333,27 @@ Definition enc_res {A} (f : A -> tree) (r : result A) : tree :=
   match r with Ok a => T 1 [f a] | Err e => err e end.
 Definition dec_ventry (t : tree) : ventry :=
   match t with T 1 (T i _ :: _) => VInt i | _ => VSlice (dec_slice t) end.
+
+Definition dec_vitem (t : tree) : vitem :=
+  match t with
+  | T 1 (T i _ :: _) => VIInt i
+  | T 2 (T b _ :: _) => VIBool (negb (b =? 0))
+  | T 3 _ => VINone
+  | T 4 _ => VIEllipsis
+  | _ => VISlice (dec_slice t)
+  end.
+Definition dec_nats (t : tree) : list nat := map Z.to_nat (to_zs t).
+Definition dec_cop (t : tree) : cop :=
+  match t with
+  | T 0 [vals; cats] => CNew (to_zs vals) (dec_optl cats)
+  | T 1 [T src _; T copy _; cats] => CRewrap (Z.to_nat src) (negb (copy =? 0)) (dec_optl cats)
+  | T 2 [T src _; sel] => CView (Z.to_nat src) (dec_nats sel)
+  | T 3 [T src _] => CCodes (Z.to_nat src)
+  | T _ (T src _ :: _) => CCats (Z.to_nat src)
+  | _ => CCats 0
+  end.
+Definition enc_cres (r : cres) : tree :=
+  match r with RObj i => T 1 [leaf (Z.of_nat i)] | RVals l => T 2 [zs l] | RBad => err (-3) end.
 
 Definition fuel_for (shape : list Z) : nat := S (Z.to_nat (zprod (map (fun n => Z.max n 1) shape))).
 
@@ -122,6 +373,15 @@ Definition run_case (t : tree) : tree :=
       T 0 [zs (unbroadcast_shape (to_zs sh) (to_bools fl)); zs (broadcast_back (to_zs sh) (to_bools fl) (to_zs small))]
   | T 7 [vals] => T 0 [zs (categories (to_zs vals)); zs (codes (to_zs vals))]
   | T 8 [cats; vals] => zs (map (fun v => index_of v (to_zs cats)) (to_zs vals))
+  (* view_shape with the view as numpy reads it: T 20 [shape; T 0 [] (view None) | T 1 [items]] *)
+  | T 20 [sh; T 0 _] => match view_shape_full (to_zs sh) None with Some r => T 1 [zs r] | None => err IndexError end
+  | T 20 [sh; T _ v] =>
+      match view_shape_full (to_zs sh) (Some (map dec_vitem v)) with Some r => T 1 [zs r] | None => err IndexError end
+  (* a history of categorical-array objects: per op its result, then every object's values / categories / codes *)
+  | T 21 ops =>
+      let '(h, rs) := crun empty_heap (map dec_cop ops) in
+      T 0 [T 0 (map enc_cres rs);
+           T 0 (map (fun o => T 0 [zs (obj_values h o); zs (obs_cats h o); zs (obs_codes h o)]) (h_objs h))]
   (* reference models, used to tie Gen to Model by correspondence as well as by proof *)
   | T 12 [sh; cs] => enc_chunks (m_chunks (to_zs sh) (to_zs cs))
   | T 13 [s; T n _] => zs (slice_elems (dec_slice s) n)
